@@ -40,6 +40,13 @@ func loadWorld(repoDir string, patterns []string, overlayDir string, tests bool)
 				return err
 			}
 			rel, _ := filepath.Rel(overlayDir, path)
+			// harness files the driver found not to compile against this tree (white-box files after an
+			// internal rename) are left out: VERIF_SKIPFILES=<pkgdir>/<file.go>,...
+			for _, skip := range strings.Split(os.Getenv("VERIF_SKIPFILES"), ",") {
+				if skip != "" && skip == filepath.ToSlash(rel) {
+					return nil
+				}
+			}
 			dir := filepath.Dir(rel)
 			if dir == "root" {
 				dir = "."
